@@ -77,8 +77,34 @@ func (i *argumentsPropIter) next() (propIterItem, iterNextFunc) {
 	}
 	if prop, ok := item.value.(*mappedProperty); ok {
 		item.value = *prop.v
+		if prop.enumerable {
+			item.enumerable = _ENUM_TRUE
+		} else {
+			item.enumerable = _ENUM_FALSE
+		}
 	}
 	return item, i.next
+}
+
+func (a *argumentsObject) stringKeys(all bool, accum []Value) []Value {
+	if all {
+		return a.baseObject.stringKeys(all, accum)
+	}
+	a.ensurePropOrder()
+	for _, k := range a.propNames {
+		switch prop := a.values[k].(type) {
+		case *mappedProperty:
+			if !prop.enumerable {
+				continue
+			}
+		case *valueProperty:
+			if !prop.enumerable {
+				continue
+			}
+		}
+		accum = append(accum, stringValueFromRaw(k))
+	}
+	return accum
 }
 
 func (a *argumentsObject) iterateStringKeys() iterNextFunc {
